@@ -18,14 +18,21 @@ impl Instruction {
 
         if self.arguments.len() >= 1 {
             for arg in &self.arguments[..] {
+                // quote every argument and escape what the bytecode reader treats
+                // specially, exactly like the compiler's own binary writer does.
                 args.push(' ');
-                if arg.contains(' ') {
-                    args.push('\"');
-                    args.push_str(arg);
-                    args.push('\"');
-                } else {
-                    args.push_str(arg);
+                args.push('\"');
+                for c in arg.chars() {
+                    match c {
+                        '\\' => args.push_str("\\\\"),
+                        '"' => args.push_str("\\\""),
+                        '\n' => args.push_str("\\n"),
+                        '\r' => args.push_str("\\r"),
+                        '\t' => args.push_str("\\t"),
+                        c => args.push(c),
+                    }
                 }
+                args.push('\"');
             }
         }
 
